@@ -1,1 +1,70 @@
-From Coq Require Import Reals.
+(* C10_mlog.v — the matrix logarithm of the rotation about a (non-zero) axis by 0 < theta < PI, through
+   DCM(axang=(axis, theta)).log : it is theta * [u]x up to the library's sign convention (R^T - R), hence skew-symmetric
+   with Frobenius norm sqrt(2) * theta — for every such theta, however small (no tolerance shortcut after the C10 fix). *)
+From Coq Require Import Reals List Lra.
+From AhrsLib Require Import Base Rot Atan2.
+From AhrsGen Require Import C10gen_R.
+Import ListNotations.
+Open Scope R_scope.
+
+Definition nrm3' (a b c : R) : R := sqrt (a * a + b * b + c * c).
+(* - theta [u]x *)
+Definition mlog_spec (ux uy uz th : R) : list R :=
+  [0; th * uz; - (th * uy);  - (th * uz); 0; th * ux;  th * uy; - (th * ux); 0].
+Definition fro2 (A : list R) : R :=
+  e A 0 * e A 0 + e A 1 * e A 1 + e A 2 * e A 2 + e A 3 * e A 3 + e A 4 * e A 4 + e A 5 * e A 5 + e A 6 * e A 6 + e A 7 * e A 7 + e A 8 * e A 8.
+Definition madd3 (A B : list R) : list R :=
+  [e A 0 + e B 0; e A 1 + e B 1; e A 2 + e B 2; e A 3 + e B 3; e A 4 + e B 4; e A 5 + e B 5; e A 6 + e B 6; e A 7 + e B 7; e A 8 + e B 8].
+
+Lemma mlog_spec_skew ux uy uz th : madd3 (mlog_spec ux uy uz th) (mtr3 (mlog_spec ux uy uz th)) = [0;0;0;0;0;0;0;0;0].
+Proof. unfold madd3, mlog_spec, mtr3. cbv [e List.nth]. list_eq; ring. Qed.
+
+Lemma mlog_spec_norm ux uy uz th : ux*ux + uy*uy + uz*uz = 1 -> 0 <= th ->
+  sqrt (fro2 (mlog_spec ux uy uz th)) = sqrt 2 * th.
+Proof.
+  intros Hu Ht. unfold fro2, mlog_spec. cbv [e List.nth].
+  replace (0 * 0 + th * uz * (th * uz) + - (th * uy) * - (th * uy) + - (th * uz) * - (th * uz) + 0 * 0 + th * ux * (th * ux)
+           + th * uy * (th * uy) + - (th * ux) * - (th * ux) + 0 * 0) with (2 * (th * th) * (ux*ux + uy*uy + uz*uz)) by ring.
+  rewrite Hu, Rmult_1_r. rewrite sqrt_mult by nra. rewrite sqrt_square by exact Ht. reflexivity.
+Qed.
+
+Lemma sc1m a : sin a * sin a + cos a * cos a = 1.
+Proof. pose proof (sin2_cos2 a) as H. unfold Rsqr in H. exact H. Qed.
+
+Ltac gate0 :=
+  match goal with
+  | |- (if Rle_dec (Rabs ?e) ?c then _ else _) = _ =>
+      let H := fresh in assert (H : Rabs e <= c) by (replace e with 0 by hring; rewrite Rabs_R0; lra);
+      destruct (Rle_dec (Rabs e) c); [clear H|contradiction]
+  end.
+
+Lemma DCM_log_axang_spec ax ay az th : 0 < ax*ax + ay*ay + az*az -> 0 < th < PI ->
+  C10_DCM_log_axang_R ax ay az th = Val (mlog_spec (ax / nrm3' ax ay az) (ay / nrm3' ax ay az) (az / nrm3' ax ay az) th).
+Proof.
+  intros Hpos [T1 T2]. unfold C10_DCM_log_axang_R, nrm3', mlog_spec. cbv zeta.
+  assert (Hn0 : 0 < sqrt (ax * ax + ay * ay + az * az)) by (apply sqrt_lt_R0; exact Hpos).
+  assert (Hn : sqrt (ax * ax + ay * ay + az * az) * sqrt (ax * ax + ay * ay + az * az) = ax * ax + ay * ay + az * az)
+    by (apply sqrt_sqrt; lra).
+  set (n := sqrt (ax * ax + ay * ay + az * az)) in *.
+  assert (Hu : (ax / n) * (ax / n) + (ay / n) * (ay / n) + (az / n) * (az / n) = 1).
+  { replace (ax / n * (ax / n) + ay / n * (ay / n) + az / n * (az / n)) with ((ax*ax + ay*ay + az*az) / (n * n)) by (field; lra).
+    rewrite <- Hn. field. lra. }
+  set (ux := ax / n) in *; set (uy := ay / n) in *; set (uz := az / n) in *. clearbody ux uy uz. clear Hn.
+  pose proof (sc1m th) as Hs.
+  assert (S0 : 0 < sin th) by (apply sin_gt_0; lra).
+  pose proof (atan2_sincos1 th) as A.
+  set (s := sin th) in *. set (c := cos th) in *. orient_unit.
+  do 10 gate0.
+  match goal with
+  | |- context [sqrt ?r] => let H := fresh in assert (H : r = s * s) by (field_simplify_eq; hring); rewrite H; clear H
+  end.
+  rewrite sqrt_sq_abs. rewrite Rabs_right by lra.
+  destruct (Req_EM_T 0 s) as [E|_]; [exfalso; lra|].
+  match goal with |- context [atan2 s (1 / 2 * ?X)] => replace X with (2 * c) by hring end.
+  replace (1 / 2 * (2 * c)) with c by field.
+  rewrite A by lra.
+  val_eq; try reflexivity; field; lra.
+Qed.
+
+Example mlog_nonvacuous : sqrt (fro2 (mlog_spec 1 0 0 (1/1000))) = sqrt 2 * (1/1000).
+Proof. apply mlog_spec_norm; [ring|lra]. Qed.
